@@ -263,3 +263,8 @@ HARNESSES[-1]['config'] = {'TMCG_MAX_FPOWM_T': 8, 'TMCG_MAX_PLAYERS': 4, 'TMCG_M
 HARNESSES[-1]['defines'] = dict(HARNESSES[-1]['defines'], H_MAXDRAWS=24, H_HMAX=10)
 C06('eotp', 'h_eotp_group', ['NaorPinkasEOTP.cc', 'JareckiLysyanskayaASTC.cc', 'PedersenVSS.cc', 'BarnettSmartVTMF_dlog.cc', 'mpz_spowm.cc', 'mpz_sprime.cc'], 'NaorPinkasEOTP: construction + CheckGroup/CheckElement == specification', qsel=(0, 1, 2, 7, 11, 13, 15))
 C06('rvss', 'h_rvss_group', ['NaorPinkasEOTP.cc', 'JareckiLysyanskayaASTC.cc', 'PedersenVSS.cc', 'BarnettSmartVTMF_dlog.cc', 'mpz_spowm.cc', 'mpz_sprime.cc'], 'JareckiLysyanskayaRVSS (also used by EDCF): construction + CheckGroup/CheckElement == specification (g != h)', qsel=(0, 1, 2, 7, 11, 13, 15))
+
+# ------------------------------------------------------------------ fragments (one file per harness family; same helpers in scope)
+import glob as _glob, os as _os
+for _f in sorted(_glob.glob(_os.path.join(_os.path.dirname(_os.path.abspath(__file__)), 'index.d', '*.py'))):
+    exec(compile(open(_f).read(), _f, 'exec'))
